@@ -328,3 +328,16 @@ package anchoring
 //@   property C09 C19
 //@   nopanic
 //@   ensures [new_object_each_time] typeis(result, *utils.ExpFromZeroFunction) && fresh(result.(*utils.ExpFromZeroFunction))
+
+// ---- the newCriterion applier, one (alternative, reference point) step (C19): the value attached to the alternative and the
+// value reported are both the bounding of mid-range + half-range x (importance-weighted sum of the mapped differences)
+//@ func addAnchoringCriteriaToAlternatives
+//@   property C19
+//@   loop 2 hint [attached_and_reported_value_is_the_bounded_one] newValue == criteria_bounding.boundedIn(*bounding.bounding, bounding.scaling.ValuesRange.Min + diff + diff * criterionValue)
+//@             && alt.Criteria[anchoringCriterion.Id] == newValue && anchoringCriterion.AlternativesValues[alt.Id] == newValue
+//@   loop 2 hint [half_range] diff == (bounding.scaling.ValuesRange.Max - bounding.scaling.ValuesRange.Min) / 2.0
+// newCriterion hands out the record of the ri-th added criterion, creating it (and its value map) on first use; the applier
+// starts from an empty list, so every record it hands out was created during the current application (trusted).
+//@ func (*additionalCriterionAnchoringState).newCriterion
+//@   trusted
+//@   ensures result != nil && fresh(result.AlternativesValues) && result.AlternativesValues != nil
